@@ -724,6 +724,7 @@ func checkC13(c *Ctx) {
 	var tlsHelper *ssa.Function // the helper that builds the TLS connection, if any
 	var tlsHelperCall *ssa.Call // its call in StartTLS
 	var tlsSeen ssa.Value       // the new TLS connection as StartTLS sees it
+	tlsHelperArgSocket := false // the helper is given the raw socket as an argument
 	if tlsServer != nil {
 		tlsSeen = tlsServer
 	} else {
@@ -774,9 +775,18 @@ func checkC13(c *Ctx) {
 		R.Fail("C13-rawhandshake", "(*Request).StartTLS: tls.Server(conn.netConn)", c.P.Pos(startTLS.Pos()), "no tls.Server call")
 	} else {
 		a0 := tlsServer.Common().Args[0]
+		// the raw socket may be handed to the helper as an argument: `serverHandshake(r.conn.netConn, cfg)`
+		if tlsHelper != nil {
+			for i, hp := range tlsHelper.Params {
+				if an.Strip(a0) == ssa.Value(hp) && i < len(tlsHelperCall.Common().Args) {
+					a0 = tlsHelperCall.Common().Args[i]
+					tlsHelperArgSocket = true
+				}
+			}
+		}
 		base, ok := fieldLoad(a0, G, "conn", "netConn")
 		if ok {
-			if tlsHelper == nil {
+			if tlsHelper == nil || tlsHelperArgSocket {
 				rb, ok2 := fieldLoad(base, G, "Request", "conn")
 				ok = ok2 && an.Strip(rb) == ssa.Value(startTLS.Params[0])
 			} else {
@@ -801,6 +811,52 @@ func checkC13(c *Ctx) {
 				}
 			}
 		}
+		// the handshake may be performed by the helper that builds the connection: its success is then the helper's
+		// nil error, provided the helper returns a nil error only after Handshake returned nil
+		var succ ssa.Value = nil
+		if hs != nil {
+			succ = hs
+		} else if tlsHelper != nil {
+			var hsIn *ssa.Call
+			for _, ci := range an.Calls(tlsHelper) {
+				if call, ok := ci.(*ssa.Call); ok {
+					if f := call.Common().StaticCallee(); f != nil && an.FuncPkgPath(f) == "crypto/tls" && (f.Name() == "Handshake" || f.Name() == "HandshakeContext") &&
+						an.Strip(call.Common().Args[0]) == ssa.Value(tlsServer) {
+						hsIn = call
+					}
+				}
+			}
+			ei := errResultIndex(tlsHelper)
+			if hsIn != nil && ei >= 0 {
+				okH := true
+				for _, ret := range an.Returns(tlsHelper) {
+					res := an.ReturnResults(ret)
+					if an.IsNilConst(an.Strip(res[ei])) {
+						// success return: only where the handshake's error was nil
+						nilHS := hasFact(ret.Block(), true, func(v ssa.Value) bool {
+							x, trueMeansNil, ok := an.NilCheck(v)
+							return ok && trueMeansNil && an.Strip(x) == ssa.Value(hsIn)
+						}) || hasFact(ret.Block(), false, func(v ssa.Value) bool {
+							x, trueMeansNil, ok := an.NilCheck(v)
+							return ok && !trueMeansNil && an.Strip(x) == ssa.Value(hsIn)
+						})
+						if !nilHS {
+							okH = false
+						}
+					} else if an.Strip(res[ei]) != ssa.Value(hsIn) && !definitelyError(res[ei], ret) {
+						okH = false
+					}
+				}
+				if okH && tlsHelperCall.Referrers() != nil {
+					for _, rr := range *tlsHelperCall.Referrers() {
+						if ex, isEx := rr.(*ssa.Extract); isEx && ex.Index == ei {
+							succ = ex
+							hs = hsIn
+						}
+					}
+				}
+			}
+		}
 		inits := callTo(startTLS, G, "(*conn).initConn")
 		var earlyInit ssa.CallInstruction
 		if tlsHelper != nil {
@@ -819,10 +875,10 @@ func checkC13(c *Ctx) {
 			ic := inits[0]
 			okErr := hasFact(ic.Block(), false, func(v ssa.Value) bool {
 				x, trueMeansNil, ok := an.NilCheck(v)
-				return ok && !trueMeansNil && an.Strip(x) == ssa.Value(hs)
+				return ok && !trueMeansNil && an.Strip(x) == an.Strip(succ)
 			}) || hasFact(ic.Block(), true, func(v ssa.Value) bool {
 				x, trueMeansNil, ok := an.NilCheck(v)
-				return ok && trueMeansNil && an.Strip(x) == ssa.Value(hs)
+				return ok && trueMeansNil && an.Strip(x) == an.Strip(succ)
 			})
 			okArg := an.Strip(ic.Common().Args[1]) == an.Strip(tlsSeen)
 			recvBase, okRecv := fieldLoad(ic.Common().Args[0], G, "Request", "conn")
@@ -833,7 +889,7 @@ func checkC13(c *Ctx) {
 			for _, ret := range an.Returns(startTLS) {
 				if hasFact(ret.Block(), true, func(v ssa.Value) bool {
 					x, trueMeansNil, ok := an.NilCheck(v)
-					return ok && !trueMeansNil && an.Strip(x) == ssa.Value(hs)
+					return ok && !trueMeansNil && an.Strip(x) == an.Strip(succ)
 				}) {
 					res := an.ReturnResults(ret)
 					R.Check(!an.IsNilConst(an.Strip(res[0])), "C13-rawhandshake", "(*Request).StartTLS: handshake error returned", c.pos(ret), "non-nil error", "a failed handshake is reported as success")
